@@ -3,6 +3,7 @@ mod c06;
 mod c07;
 mod c08;
 mod c09;
+mod c11;
 mod c17;
 mod c18;
 mod gen;
@@ -29,6 +30,7 @@ fn all_checks() -> Vec<&'static dyn Check> {
         &c07::C07,
         &c08::C08,
         &c09::C09,
+        &c11::C11,
         &termchecks::TermCheck(termchecks::Flavor::C16),
         &c17::C17,
         &c18::C18,
